@@ -6,6 +6,8 @@ import Qryn.Proofs.ReadCensus
 import Qryn.Proofs.ReadCensusTyped
 import Qryn.Proofs.ReadStageDiscipline
 import Qryn.ReadSide.Controllers
+import Qryn.Proofs.ReadDbVersion
+import Qryn.Gen.DbVersion
 /-! # C12 — no query can crash, hang or leak work on the read side   (PARTIAL: bookkeeping proved, runtime explored)
 
 Property theorems only. Models: `Qryn.ReadSide` (Params.lean: controllers' parameter handling, `FixPeriodPlanner`,
@@ -730,4 +732,116 @@ example : exporterRun [(3, false), (2, false)] .drain 2 = ("final", 2) := by dec
 example : exporterRun [(3, false), (2, false)] .abandon 2 = ("blocked", 2) := by decide +kernel
 example : exporterRun [(3, false), (2, true), (5, false)] .abandon 5 = ("final", 5) := by decide +kernel
 
+end Qryn.C12
+
+/-! ## `dbVersion.GetVersionInfo` — the lookup every read request runs first (session c12w) -/
+namespace Qryn.C12
+section DbVersion
+open Qryn.ReadSide.DbVersion
+
+/-- **T.** reader/utils/dbVersion/version.go, regenerated: the event sequences of every source path of every function
+    are the ones the transition system of `ReadSide/DbVersion.lean` has moves for — `GetVersionInfo`: first hold reads
+    `versions` (move `hit` / `lead`); both queries OUTSIDE any hold (`settings`, `tables`; an error returns at once,
+    holding nothing); second hold writes `versions`, then `throttle()` (`finish`); `throttle`: compare-and-swap of
+    `throttled`, at most one sleeper started; the sleeper: sleep, `throttled = 0` (`sleeperWakes`), then under the mutex
+    a fresh map (`reset`). No function blocks in a channel receive / Cond / WaitGroup wait (`waits = []`): no lookup
+    depends on another lookup's progress. The translator itself refuses: a query, wait or sleep under the mutex; a path
+    that returns holding it; a package variable touched outside a hold (`throttled`, accessed through sync/atomic,
+    excepted); a wait nobody signals; a channel created on a path that returns without signalling it. -/
+theorem version_lock_structure_as_modelled :
+    Gen.DbVersion.funcs =
+      [("(method).IsVersionSupported", [[.ret false]]),
+       ("throttle", [[.cas "throttled", .spawn "throttle.go#1", .ret false], [.cas "throttled", .ret false]]),
+       ("throttle.go#1", [[.sleep, .write "throttled", .lock, .write "versions", .unlock, .ret false]]),
+       ("GetVersionInfo",
+        [[.lock, .read "versions", .unlock, .query, .query, .lock, .write "versions", .unlock, .call "throttle", .ret false],
+         [.lock, .read "versions", .unlock, .query, .query, .ret true],
+         [.lock, .read "versions", .unlock, .query, .ret true],
+         [.lock, .read "versions", .unlock, .ret false]])] ∧
+    Gen.DbVersion.waits = [] ∧
+    Gen.DbVersion.code = { share := false, signalOnError := true } := by decide
+
+/-- **version_lookup_total.** Any number `S0.n` of concurrent calls of `GetVersionInfo` on any databases, started in any
+    cache state (warm or cold per database, throttle flag either way, sleepers and resets pending), every interleaving of
+    their critical sections with each other and with the cache resets, every outcome (rows / database error / the
+    caller's context cancelled) of every bookkeeping query: in every reachable state `S`
+    (1) every move decreases `measure` — no schedule runs for ever;
+    (2) if some lookup has not returned, some goroutine has a move — nobody waits for something that cannot happen;
+    (3) a state without moves has every lookup back in its caller (with the value or with the error);
+    (4) such a state is reachable.
+    Holds for the code as regenerated (`Gen.DbVersion.code`, first conjunct) and for EVERY shape that either does not
+    make a lookup wait for another one or wakes the waiters on the error path too. What it means for the code: a read
+    request never blocks in the version lookup, also when the database fails or another client goes away midway. The
+    database driver answering or failing a query in bounded time (`QueryCtx` under the request context) is the
+    hypothesis built into the moves `settings` / `tables`. -/
+theorem version_lookup_total :
+    (Gen.DbVersion.code.share = false ∨ Gen.DbVersion.code.signalOnError = true) ∧
+    ∀ (c : Code), (c.share = false ∨ c.signalOnError = true) →
+    ∀ (S0 S : Sys), Initial S0 → Run c S0 S →
+      (∀ S', Step c S S' → S'.measure < S.measure) ∧
+      ((∃ i, i < S.n ∧ (S.lk i).pc.isReturned = false) → ∃ S', Step c S S') ∧
+      ((∀ S', ¬ Step c S S') → AllReturned S) ∧
+      (∃ S', Run c S S' ∧ AllReturned S') := by
+  refine ⟨by decide, ?_⟩
+  intro c hc S0 S h0 hr
+  have hI : Inv c S := run_inv c hc hr (initial_inv c S0 h0)
+  refine ⟨fun S' h => step_measure c S S' h, ?_, ?_, reaches_all_returned c hc _ S (Nat.le_refl _) hI⟩
+  · rintro ⟨i, hi, hnr⟩
+    exact progress c S hI i hi hnr
+  · intro hstuck
+    apply Classical.byContradiction
+    intro ha
+    obtain ⟨i, hi, hnr⟩ := not_all_returned S ha
+    obtain ⟨S', hs⟩ := progress c S hI i hi hnr
+    exact hstuck S' hs
+
+/-- **orphaned_waiter_never_returns** (counter-pattern, general). In ANY state in which a lookup waits on a leader that
+    has returned without closing `done`, whatever happens afterwards — other lookups, query outcomes, cache resets, new
+    leaders — that lookup is still waiting: the request it belongs to never gets its response. -/
+theorem orphaned_waiter_never_returns (c : Code) (S S' : Sys) (h : Orphaned S) (hr : Run c S S') :
+    Orphaned S' ∧ ¬ AllReturned S' := by
+  refine ⟨?_, orphaned_never_returns c hr h⟩
+  induction hr with
+  | refl => exact h
+  | step hs _ ih => exact ih (step_keeps_orphaned c _ _ h hs)
+
+/-- the statement of `version_lookup_total` (4) for EVERY shape of the lookup -/
+def version_lookup_total_full : Prop :=
+  ∀ (c : Code) (S0 S : Sys), Initial S0 → Run c S0 S → ∃ S', Run c S S' ∧ AllReturned S'
+
+/-- two requests for database 0 on a cold cache, starting together -/
+def coldPair : Sys :=
+  { n := 2, lk := fun _ => ⟨0, .start⟩, cache := fun _ => false, inflight := fun _ => none,
+    throttled := false, sleepers := 0, resets := 0 }
+
+/-- **version_lookup_total_counterexample** — "the entry is removed and the error returned before the waiters are
+    signalled" (`share = true`, `signalOnError = false`; seeded change C12-w): lookup 0 misses the cache and becomes the
+    leader, lookup 1 finds it under way and waits, the leader's settings query fails, the leader removes its entry and
+    returns the error. Lookup 1 is now orphaned: no continuation has it returned. -/
+theorem version_lookup_total_counterexample : ¬ version_lookup_total_full := by
+  intro hfull
+  let c : Code := ⟨true, false⟩
+  let S1 : Sys := { coldPair with lk := setPc coldPair.lk 0 .settings, inflight := setKey coldPair.inflight 0 (some 0) }
+  let S2 : Sys := { S1 with lk := setPc S1.lk 1 (.waiting 0) }
+  let S3 : Sys := { S2 with lk := setPc S2.lk 0 (.finishing .error) }
+  let S4 : Sys := Qryn.ReadSide.DbVersion.finish c S3 0 .error
+  have s1 : Step c coldPair S1 := Step.lead coldPair 0 (by decide) rfl rfl (fun _ => rfl)
+  have s2 : Step c S1 S2 := Step.join S1 1 0 (by decide) rfl rfl rfl rfl
+  have s3 : Step c S2 S3 := Step.settings S2 0 .err (by decide) rfl
+  have s4 : Step c S3 S4 := Step.finish S3 0 .error (by decide) rfl
+  have hO : Orphaned S4 := ⟨1, 0, .error, by decide, rfl, rfl⟩
+  have hrun : Run c coldPair S4 := Run.step s1 (Run.step s2 (Run.step s3 (Run.step s4 (Run.refl _))))
+  obtain ⟨S', hr', hall⟩ := hfull c coldPair _ ⟨fun _ => rfl, fun _ => rfl⟩ hrun
+  exact (orphaned_waiter_never_returns c _ S' hO hr').2 hall
+
+-- non-vacuity: the hypotheses of `version_lookup_total` are satisfiable (a cold pair is an initial state, it has a move,
+-- the same schedule with a leader that DOES signal releases the waiter) and `Orphaned` is reachable only without the signal
+example : Initial coldPair := ⟨fun _ => rfl, fun _ => rfl⟩
+example : ∃ S', Step Gen.DbVersion.code coldPair S' := ⟨_, Step.lead coldPair 0 (by decide) rfl rfl (fun h => by cases h)⟩
+example : (Qryn.ReadSide.DbVersion.finish ⟨true, true⟩ { coldPair with lk := setPc coldPair.lk 0 (.finishing .error) } 0 .error).lk 0
+    = ⟨0, .returned .error true⟩ := rfl
+example : (Qryn.ReadSide.DbVersion.finish ⟨true, false⟩ { coldPair with lk := setPc coldPair.lk 0 (.finishing .error) } 0 .error).lk 0
+    = ⟨0, .returned .error false⟩ := rfl
+
+end DbVersion
 end Qryn.C12
